@@ -1753,14 +1753,16 @@ func findRequiredLandmarkChainLeftToRight(r *Runner, chain *syntax.RequiredLandm
 			return false
 		}
 
-		nextStart := first.End
+		// The landmark found is the earliest one; the match may use a later or shorter alternative of
+		// it, so the next landmark can begin as early as the shortest alternative allows.
+		nextStart := first.CoreStart + requiredLandmarkMinWidth(chain.Landmarks[0])
 		for i := 1; i < len(chain.Landmarks); i++ {
 			landmark, ok := findNextRequiredLandmarkRunes(r.Runtext, nextStart, r.Runtextend, chain.Landmarks[i])
 			if !ok {
 				r.Runtextpos = r.Runtextend
 				return false
 			}
-			nextStart = landmark.End
+			nextStart = landmark.CoreStart + requiredLandmarkMinWidth(chain.Landmarks[i])
 		}
 
 		candidate := first.Start
@@ -1780,6 +1782,24 @@ func findRequiredLandmarkChainLeftToRight(r *Runner, chain *syntax.RequiredLandm
 
 	r.Runtextpos = r.Runtextend
 	return false
+}
+
+// requiredLandmarkMinWidth is the fewest characters any alternative of the landmark consumes.
+func requiredLandmarkMinWidth(landmark syntax.RequiredLandmark) int {
+	width := -1
+	for _, alt := range landmark.Alternatives {
+		w := alt.MinRepeat
+		if len(alt.Literal) > 0 {
+			w = len(alt.Literal)
+		}
+		if width < 0 || w < width {
+			width = w
+		}
+	}
+	if width < 0 {
+		return 0
+	}
+	return width
 }
 
 type requiredLandmarkMatch struct {
